@@ -887,7 +887,7 @@ def check_gen(prop, tier, seed, work):
             if c.name in bad:
                 c.gen_ok = False
                 lines = [l for l in build_out.splitlines() if "gen/%s/" % c.name in l]
-                viol.append(dict(property="C26", sig=c.sig("compile-error", msg=re.sub(r"[^a-zA-Z ]", "", lines[0].split(": ", 1)[-1])[:60] if lines else ""),
+                viol.append(dict(property="C29" if prop == "C29" else "C26", sig=c.sig("compile-error", msg=re.sub(r"[^a-zA-Z ]", "", lines[0].split(": ", 1)[-1])[:60] if lines else ""),
                                  detail="%s: the generated package does not compile: %s" % (c.label(), " ; ".join(lines[:4])), case=c.case()))
         if not bad:
             raise Infra("gendump does not build:\n" + build_out[-3000:])
@@ -926,7 +926,7 @@ def check_gen(prop, tier, seed, work):
                     sp = "/" + "/".join(e[0] for e in genfam.parse_path(pc["resolved"]))
                     if sp not in gp and sp != "/":
                         viol.append(dict(property="C29", sig=c.sig("not-a-gostruct-path"), detail="%s: %s resolves to %s, which no GoStruct field's path tag gives" % (c.label(), pc["chain"], pc["resolved"]), case=c.case()))
-    if prop == "C29" and not counters["path_calls"]:
+    if prop == "C29" and not counters["path_calls"] and not viol:
         raise Infra("vacuous: no path accessor was resolved")
     for x in sorted(drift)[:10]:
         log("SPEC-DRIFT:", x)
@@ -940,6 +940,257 @@ def check_gen(prop, tier, seed, work):
                "compression behaviours, with TLC-checked ExactlyOnce / PathsDistinct / StateExcluded; " + expl + ". Flag sets rotate over the cases: " +
                "min (simple unions), full (all generate_* options, annotations, presence tags, wrapper unions), alt (no ordered maps, no enum de-duplication, shadow paths). "
                "Not random schemas: the feature space of the model, enumerated.")
+    return cov, viol
+
+
+DETGEN_CFG = """SPECIFICATION Spec
+CONSTANTS
+  Cfgs = {"c1", "c2"}
+  Digests = {"h1", "h2"}
+PROPERTY WriteOnce
+CHECK_DEADLOCK FALSE
+"""
+
+DETGEN_TRACE_CFG = """SPECIFICATION TraceSpec
+CONSTANTS
+  Cfgs = {"c1"}
+  Digests = {"h1"}
+PROPERTY TraceWriteOnce
+POSTCONDITION TraceAccepted
+CHECK_DEADLOCK FALSE
+"""
+
+
+def check_c25(tier, seed, work):
+    """C25: every SchemaGen.tla case is generated several times in separate processes (Go structs,
+    path structs, protobuf) with different GOMAXPROCS; the digests are recorded as a trace of Run
+    events and validated by TLC against DetGen.tla (write-once register per configuration)."""
+    import genfam, yanggen, hashlib, glob
+    from concurrent.futures import ThreadPoolExecutor
+    abstract = vf.run_tlc(work, "DetGen", DETGEN_CFG, tag="detgen", workers=4)
+    mc, cases = genfam.model_cases(work, tier)
+    sel = genfam.select(cases, tier, seed, limit=None if tier == "quick" else 160)
+    h = vf.copy_harness(work)
+    bindir = vf.build_generators(h, work)
+    genfam.build_tools(h, bindir)
+    cs = [genfam.Case(i, m, fs) for i, (m, fs) in enumerate(sel)]
+    runs = 4 if tier == "quick" else 10
+    procs = [1, 2, 16, 5, 3, 8, 1, 16, 4, 7]
+    PSETS = {"min": ["-generate_fakeroot"], "full": ["-generate_fakeroot", "-package_hierarchy"], "alt": ["-generate_fakeroot", "-skip_enum_deduplication"]}
+
+    def digest(d):
+        hh = hashlib.sha256()
+        for path in sorted(glob.glob(os.path.join(d, "**", "*"), recursive=True)):
+            if os.path.isfile(path):
+                hh.update(os.path.relpath(path, d).encode() + b"\0" + open(path, "rb").read() + b"\0")
+        return hh.hexdigest()[:16]
+
+    def one(c):
+        ydir = os.path.join(work, "yang", c.name)
+        yanggen.write_case(c.m, ydir)
+        ev = []
+        for r in range(runs):
+            env = dict(vf.GOENV, GOMAXPROCS=str(procs[r % len(procs)]))
+            # Go structs (+ path structs under compression), split into several files in the later runs' twin configuration
+            out = os.path.join(work, "det", c.name, "go-%d" % r)
+            os.makedirs(out)
+            cmd = [os.path.join(bindir, "generator"), "-logtostderr", "-path=" + ydir, "-output_file=" + os.path.join(out, "gen.go"), "-package_name=" + c.name] + genfam.BASE + c.flags
+            if c.comp:
+                cmd += ["-generate_path_structs", "-path_structs_output_file=" + os.path.join(out, "paths.go")]
+            p = vf.subprocess.run(cmd + genfam.MODS, cwd=ydir, env=env, stdout=vf.subprocess.PIPE, stderr=vf.subprocess.STDOUT, text=True)
+            ev.append(dict(cfg=c.name + ":go", run=r, gomaxprocs=procs[r % len(procs)], h=digest(out) if p.returncode == 0 else "error:" + re.sub(r"^[A-Z]\d+ [\d:.]+ +\d+ ", "", (p.stdout.strip().splitlines() or ["?"])[-1])[:120]))
+            out = os.path.join(work, "det", c.name, "proto-%d" % r)
+            cmd = [os.path.join(bindir, "proto_generator"), "-logtostderr", "-path=" + ydir, "-output_dir=" + out, "-base_import_path=example.com/pb"] + genfam.BEH_FLAGS[c.beh] + PSETS[c.fs]
+            p = vf.subprocess.run(cmd + genfam.MODS, cwd=ydir, env=env, stdout=vf.subprocess.PIPE, stderr=vf.subprocess.STDOUT, text=True)
+            ev.append(dict(cfg=c.name + ":proto", run=r, gomaxprocs=procs[r % len(procs)], h=digest(out) if p.returncode == 0 else "error:" + re.sub(r"^[A-Z]\d+ [\d:.]+ +\d+ ", "", (p.stdout.strip().splitlines() or ["?"])[-1])[:120]))
+        return ev
+
+    with ThreadPoolExecutor(8) as ex:
+        evs = [e for ev in ex.map(one, cs) for e in ev]
+    # interleave by run number: the trace is the history of all runs
+    evs.sort(key=lambda e: (e["run"], e["cfg"]))
+    lines = [json.dumps(e) for e in evs]
+    viol = []
+    accepted = 0
+    remaining = lines
+    rounds = 0
+    bycase = {c.name: c for c in cs}
+    while remaining:
+        rounds += 1
+        if rounds > 30:
+            raise Infra("too many rejected runs")
+        ok, n = vf.validate_trace(work, "DetGen", DETGEN_TRACE_CFG, remaining, "det-r%d" % rounds)
+        accepted += n
+        if ok:
+            break
+        bad = json.loads(remaining[n])
+        c = bycase[bad["cfg"].split(":")[0]]
+        first = [json.loads(x) for x in lines if json.loads(x)["cfg"] == bad["cfg"]][0]
+        viol.append(dict(property="C25", sig=c.sig("output-differs", artefact=bad["cfg"].split(":")[1]),
+                         detail="%s: run %d (GOMAXPROCS=%d) of the %s generator wrote %s, run 0 wrote %s; TLC rejects the run as a step of DetGen" % (c.label(), bad["run"], bad["gomaxprocs"], bad["cfg"].split(":")[1], bad["h"], first["h"]),
+                         case=dict(c.case(), artefact=bad["cfg"].split(":")[1])))
+        # drop every event of the offending configuration and validate the rest
+        remaining = [x for x in remaining[n + 1:] if json.loads(x)["cfg"] != bad["cfg"]]
+    errors = sum(1 for e in evs if e["h"].startswith("error:"))
+    cov = dict(states=abstract["distinct"] + mc["distinct"], transitions=abstract["states"] + mc["states"], traces_validated_against_impl=len(lines), exhaustive=False,
+               counters=dict(cases=len(cs), runs_per_case=runs, events=len(lines), events_accepted=accepted, generator_errors=errors),
+               samples=[json.loads(lines[0]), json.loads(lines[-1])],
+               explanation="DetGen.tla (write-once register per configuration; WriteOnce checked by TLC on the abstract model) and trace validation of the recorded "
+               "runs: every SchemaGen.tla case (schema x compression behaviour x flag set) is generated %d times in separate processes with GOMAXPROCS in %s -- "
+               "Go structs with the embedded schema, path structs (compressed cases) and the protobuf files -- and the digest of everything written is one Run event. "
+               "An error result is an output too (it must be the same error every time). Not covered: other include-path orders, split output files." % (runs, procs[:runs]))
+    return cov, viol
+
+
+def check_c28(tier, seed, work):
+    """C28: SchemaGen.tla cases (with the adversarial leaf and identity names) -> proto_generator
+    built from the working tree -> every .proto parsed with tools/protoparse.py and checked for
+    proto3 well-formedness; field numbers as a function of the schema path across runs, option
+    sets, compression behaviours and an unrelated schema change."""
+    import genfam, protoparse, glob
+    from concurrent.futures import ThreadPoolExecutor
+    mc, cases = genfam.model_cases(work, tier, adv=True)
+    sel = genfam.select(cases, tier, seed, limit=None if tier == "quick" else 200)
+    h = vf.copy_harness(work)
+    bindir = vf.build_generators(h, work)
+    genfam.build_tools(h, bindir)
+    cs = [genfam.Case(i, m, fs) for i, (m, fs) in enumerate(sel)]
+    PSETS = {"min": ["-generate_fakeroot"], "full": ["-generate_fakeroot", "-package_hierarchy"],
+             "alt": ["-generate_fakeroot", "-skip_enum_deduplication", "-add_enumnames=false"]}
+    viol = []
+    counters = dict(cases=len(cs), files=0, messages_fields=0, tags_compared=0, generator_errors=0)
+    tagmap = {}     # (schemapath annotation, member field name) -> (number, where)
+
+    # the second member of every colliding pair: with them the generator must either refuse the
+    # schema or still write well-formed files; without them it must succeed
+    COLLIDERS = {"qevyl7r6", "q4bax692", "q9uylrx1"}
+
+    def gen(c, variant, extra_leaf=None, colliders=False):
+        ydir = os.path.join(work, "yang", c.name + "-" + variant)
+        m = c.m if colliders else dict(c.m, nodes=[n for n in c.m["nodes"] if n["p"].rsplit("/", 1)[1] not in COLLIDERS])
+        yanggen.write_case(m, ydir, extra_leaf=extra_leaf, adv_identities=colliders)
+        out = os.path.join(work, "proto", c.name + "-" + variant)
+        cmd = [os.path.join(bindir, "proto_generator"), "-logtostderr", "-path=" + ydir, "-output_dir=" + out, "-base_import_path=example.com/pb"] + \
+            [f for f in genfam.BEH_FLAGS[c.beh]] + PSETS[c.fs] + genfam.MODS
+        p = vf.subprocess.run(cmd, cwd=ydir, env=vf.GOENV, stdout=vf.subprocess.PIPE, stderr=vf.subprocess.STDOUT, text=True)
+        return p.returncode, p.stdout, out
+
+    import yanggen
+
+    def one(c):
+        res = {}
+        res["a"] = gen(c, "a")
+        res["b"] = gen(c, "b")
+        # an unrelated change: one more leaf in a container the other fields do not live in
+        parent = "/top/c-x/config" if c.m["tog"]["oc"] else "/top/c-x"
+        if parent in c.nodes:
+            res["c"] = gen(c, "c", extra_leaf=(parent, "unrelated-leaf"))
+        res["k"] = gen(c, "k", colliders=True)
+        return c, res
+
+    with ThreadPoolExecutor(12) as ex:
+        results = list(ex.map(one, cs))
+    known = {"ywrapper." + n: "message" for n in ("StringValue", "UintValue", "IntValue", "BoolValue", "BytesValue", "Decimal64Value")}
+    for c, res in results:
+        rc, out, pdir = res["a"]
+        if rc != 0:
+            counters["generator_errors"] += 1
+            last = out.strip().splitlines()[-1] if out.strip() else ""
+            viol.append(dict(property="C28", sig=c.sig("generator-error", msg=re.sub(r"[^a-z ]", "", last.lower().split("] ", 1)[-1])[:60]),
+                             detail="%s: proto_generator fails on a schema of the supported subset: %s" % (c.label(), out.strip()[-500:]), case=c.case()))
+            continue
+
+        def load(pdir):
+            files = {}
+            for path in sorted(glob.glob(os.path.join(pdir, "**", "*.proto"), recursive=True)):
+                files[os.path.relpath(path, pdir)] = open(path).read()
+            return files
+        def wellformed(files, what):
+            parsed = {}
+            table = dict(known)
+            for rel, text in files.items():
+                try:
+                    parsed[rel] = protoparse.parse(text)
+                    protoparse.symbols(parsed[rel], table)
+                except protoparse.ProtoError as e:
+                    viol.append(dict(property="C28", sig=c.sig("parse-error"), detail="%s%s: %s does not parse as the proto3 the generator emits: %s" % (c.label(), what, rel, e), case=c.case()))
+            counters["files"] += len(parsed)
+
+            def report(conj, detail, **kw):
+                viol.append(dict(property="C28", sig=c.sig(conj, **kw), detail="%s%s: %s" % (c.label(), what, detail), case=c.case()))
+            for rel, f in parsed.items():
+                protoparse.check_file(f, table, rel, report)
+            return parsed
+        fa = load(pdir)
+        parsed = wellformed(fa, "")
+        # with colliding names: refused, or well-formed and complete
+        rck, outk, pdirk = res["k"]
+        if rck != 0:
+            counters["collision_schemas_refused"] = counters.get("collision_schemas_refused", 0) + 1
+            if "same field number" not in outk and "same enum value" not in outk:
+                viol.append(dict(property="C28", sig=c.sig("generator-error-collision-variant"), detail="%s: with the colliding names proto_generator fails for another reason: %s" % (c.label(), outk.strip()[-400:]), case=c.case()))
+        else:
+            counters["collision_schemas_generated"] = counters.get("collision_schemas_generated", 0) + 1
+            pk = wellformed(load(pdirk), " (colliding names)")
+            for rel, f in pk.items():
+                for it in f["items"]:
+                    if it["kind"] == "enum" and it["name"].endswith("BASE") and "-add_enumnames=false" not in PSETS[c.fs]:
+                        have = {v["options"].get("(yext.yang_name)", "").strip('"') for v in it["values"]}
+                        for ident in ("I-ONE", "I_TWO", "I1vr4b8", "Ibu4tnd"):
+                            if ident not in have:
+                                viol.append(dict(property="C28", sig=c.sig("identity-value-lost", identity=ident), detail="%s: enum %s has no value for identity %s of its base (values: %s)" % (c.label(), it["name"], ident, sorted(have)), case=c.case()))
+        # numbers as a function of the schema path
+        def tags(parsed_files):
+            out = {}
+            for rel, f in parsed_files.items():
+                for fq, name, num, sp, typ in protoparse.fields_by_schemapath(f):
+                    if sp:
+                        out[(sp, name)] = num
+            return out
+        ta = tags(parsed)
+        counters["messages_fields"] += len(ta)
+        for key, num in ta.items():
+            prev = tagmap.get(key)
+            if prev and prev[0] != num:
+                viol.append(dict(property="C28", sig=c.sig("number-depends-on-options"), detail="%s: field %s (%s) has number %d here and %d in %s" % (c.label(), key[1], key[0], num, prev[0], prev[1]), case=c.case()))
+            tagmap.setdefault(key, (num, c.label()))
+        for variant, what in (("b", "a second run"), ("c", "an unrelated leaf added elsewhere")):
+            if variant not in res:
+                continue
+            rc2, out2, pdir2 = res[variant]
+            if rc2 != 0:
+                viol.append(dict(property="C28", sig=c.sig("generator-error-variant", variant=variant), detail="%s: proto_generator fails with %s: %s" % (c.label(), what, out2.strip()[-300:]), case=c.case()))
+                continue
+            fb = load(pdir2)
+            if variant == "b" and fb != fa:
+                diff = sorted(k for k in set(fa) | set(fb) if fa.get(k) != fb.get(k))
+                viol.append(dict(property="C25", sig=c.sig("proto-not-deterministic"), detail="%s: two runs of proto_generator differ in %s" % (c.label(), diff), case=c.case()))
+            pb = {}
+            for rel, text in fb.items():
+                try:
+                    pb[rel] = protoparse.parse(text)
+                except protoparse.ProtoError:
+                    pass
+            tb = tags(pb)
+            for key, num in ta.items():
+                counters["tags_compared"] += 1
+                if key in tb and tb[key] != num:
+                    viol.append(dict(property="C28", sig=c.sig("number-not-stable", variant=variant), detail="%s: with %s the number of field %s (%s) changes from %d to %d" % (c.label(), what, key[1], key[0], num, tb[key]), case=c.case()))
+                elif key not in tb:
+                    viol.append(dict(property="C28", sig=c.sig("field-lost", variant=variant), detail="%s: with %s field %s (%s) disappears" % (c.label(), what, key[1], key[0]), case=c.case()))
+        for rel, f in parsed.items():
+            for it in f["items"]:
+                if it["kind"] == "enum" and it["name"].endswith("BASE") and len(it["values"]) != 3:
+                    viol.append(dict(property="C28", sig=c.sig("identity-value-lost", identity="count"), detail="%s: enum %s has %d values for 2 identities plus UNSET" % (c.label(), it["name"], len(it["values"])), case=c.case()))
+    cov = dict(states=mc["distinct"], transitions=mc["states"], traces_validated_against_impl=counters["cases"], exhaustive=False, counters=counters,
+               samples=[cs[0].label(), cs[-1].label()], adversarial_names=genfam.ADV_NAMES,
+               explanation="SchemaGen.tla cases with 15 adversarial leaf names next to top/a (schema paths whose documented FNV-1 based number is 0, lies in "
+               "19000-19999 or 1-1000, or equals a sibling's) and two identities of one base whose value numbers coincide; every case is generated "
+               "with proto_generator (compression behaviours x option sets: nested messages, package_hierarchy, skip_enum_deduplication / no enum names) "
+               "three times: twice unchanged and once with an unrelated leaf added in another container. Every .proto is parsed by tools/protoparse.py "
+               "(there is no protoc here: the parser accepts exactly the grammar protogen emits and rejects everything else) and checked: distinct field "
+               "names and numbers per message incl. oneof members, numbers in 1..2^29-1 and outside 19000-19999, enum value names / numbers distinct and "
+               "first value 0, type references defined, identifiers valid; numbers equal across runs, option sets, behaviours and the unrelated change.")
     return cov, viol
 
 
@@ -987,6 +1238,8 @@ PIPELINES = {
     "C26": lambda tier, seed, work: check_gen("C26", tier, seed, work),
     "C27": lambda tier, seed, work: check_gen("C27", tier, seed, work),
     "C29": lambda tier, seed, work: check_gen("C29", tier, seed, work),
+    "C28": check_c28,
+    "C25": check_c25,
     "C10": lambda tier, seed, work: check_tree("C10", tier, seed, work, "set,setll", ["SetGetFrame"]),
     "C12": lambda tier, seed, work: check_tree("C12", tier, seed, work, "delete", ["DeleteExact"]),
     "C01": lambda tier, seed, work: check_treelaws("C01", tier, seed, work, "c01", ["RoundTrip7951"]),
